@@ -366,11 +366,12 @@ func callPaths(r *lib.Run) {
 // ---------------------------------------------------------------- put histories
 
 type step struct {
-	id  [32]byte
-	n   int
-	acc bool   // accepted
-	rad string // Radius() after the step
-	set string // hash of the retained key set after the step
+	reopen bool
+	id     [32]byte
+	n      int
+	acc    bool   // accepted
+	rad    string // Radius() after the step
+	set    string // hash of the retained key set after the step
 }
 
 type defectModel struct { // M_LE: the store with little-endian decoding of key bytes in inRadius / prune
@@ -410,6 +411,24 @@ func (m *defectModel) put(id [32]byte, n int) bool {
 		}
 	}
 	return true
+}
+
+// reopen: what NewStorage does in the defect model - above 95 % usage the radius is the little-endian reading of the
+// farthest retained key, otherwise the maximum.
+func (m *defectModel) reopen() {
+	m.radius = storeutil.MaxRadius.Clone()
+	if m.size > uint64(float64(m.capB)*(1-0.05)) {
+		var far [32]byte
+		found := false
+		for k := range m.items {
+			if !found || storeutil.CmpKeys(k, far) > 0 {
+				far, found = k, true
+			}
+		}
+		if found {
+			m.radius = storeutil.LE(far)
+		}
+	}
 }
 
 func setHash(keys [][32]byte) string {
@@ -465,7 +484,43 @@ func runHistory(r *lib.Run, idx int, base string) {
 	modelAgrees := true
 	nSteps := 90 + rng.Intn(60)
 	prevCount := 0
+	reopens := 0
 	for s := 0; s < nSteps; s++ {
+		if s > 15 && rng.Intn(28) == 0 {
+			// restart: the radius is re-derived on open (from the farthest retained item above 95 % usage, the maximum
+			// otherwise); admission afterwards must agree with it like before
+			st.Close()
+			db, err = storeutil.OpenDir(dir, "c06")
+			if err != nil {
+				r.FloorMiss("reopen: %v", err)
+				return
+			}
+			st, err = storeutil.NewStore(db, node, 1, "c06")
+			if err != nil {
+				r.Violation("reopen-error", fmt.Sprintf("NewStorage on reopen: %v", err), map[string]any{"history": idx})
+				return
+			}
+			model.reopen()
+			items, _ := storeutil.Scan(db)
+			keys := make([][32]byte, len(items))
+			for i, it := range items {
+				keys[i] = it.Key
+			}
+			radAfter := st.Radius().Clone()
+			if model.radius.Hex() != radAfter.Hex() || model.setHash() != setHash(keys) {
+				modelAgrees = false
+			}
+			for _, k := range keys {
+				if storeutil.BE(k).Gt(radAfter) {
+					strictViol = append(strictViol, fmt.Sprintf("step %d (reopen): retained item at distance %s lies outside the advertised radius %s", s, storeutil.BE(k).Hex(), radAfter.Hex()))
+					break
+				}
+			}
+			trace = append(trace, step{reopen: true, rad: radAfter.Hex(), set: setHash(keys)})
+			prevRadius = radAfter // a restart may legitimately widen the radius (maximum at or below 95 % usage)
+			prevCount = len(items)
+			reopens++
+		}
 		var id [32]byte
 		switch {
 		case len(pool) > 0 && rng.Intn(8) == 0:
@@ -549,6 +604,7 @@ func runHistory(r *lib.Run, idx int, base string) {
 		reg = "A(palindromic distances)"
 	}
 	r.Count("histories_regime_"+reg[:1], 1)
+	r.Count("history_reopens", reopens)
 	if prunes > 0 {
 		r.Count("histories_with_prune_regime_"+reg[:1], 1)
 		r.Count("prunes_observed", prunes)
@@ -595,6 +651,10 @@ func contains(s, sub string) bool {
 func traceJSON(t []step) []map[string]any {
 	var out []map[string]any
 	for _, s := range t {
+		if s.reopen {
+			out = append(out, map[string]any{"reopen": true, "radius_after": s.rad, "retained": s.set})
+			continue
+		}
 		out = append(out, map[string]any{"id": lib.Hex(s.id[:]), "len": s.n, "accepted": s.acc, "radius_after": s.rad, "retained": s.set})
 	}
 	return out
